@@ -564,6 +564,18 @@ func (sh *SessionHandler) rpcWrite(s *session, log *zap.Logger) (contracts.Usage
 		return contracts.Usage{}, fmt.Errorf("failed to read write request: %w", err)
 	}
 
+	// a Merkle proof cannot be built for update actions: the diff proof
+	// helpers used by RPCWriteCost panic on them
+	if req.MerkleProof {
+		for _, action := range req.Actions {
+			if action.Type == rhp2.RPCWriteActionUpdate {
+				err := errors.New("failed to validate write actions: merkle proofs are not supported for update actions")
+				s.t.WriteResponseErr(err)
+				return contracts.Usage{}, err
+			}
+		}
+	}
+
 	remainingDuration := uint64(s.contract.Revision.WindowEnd) - currentHeight
 	// validate the requested actions
 	oldSectors := s.contract.Revision.Filesize / rhp2.SectorSize
